@@ -66,10 +66,10 @@ func allChecks() []*Check {
 		{
 			ID: "C07", Title: "Disconnect always completes, leaks nothing, and the client can reconnect",
 			Harnesses: []Harness{
-				{Pkg: "client", Func: "VerifC07Teardown", Sched: true, Quick: map[string]int{"INB": 3, "OUTB": 0, "SW": 1}, Thorough: map[string]int{"INB": 4, "OUTB": 2, "SW": 2}, Asserts: []string{"DISCONNECTED-delivered-once", "Close-returned", "monitor:no-goroutine-left-behind"}, Note: "small backlogs, delay-bounded schedules"},
-				{Pkg: "client", Func: "VerifC07Teardown", Sched: true, Quick: map[string]int{"INB": 70, "OUTB": 0, "SW": 1}, Thorough: map[string]int{"INB": 140, "OUTB": 0, "SW": 1}, Asserts: []string{"DISCONNECTED-delivered-once"}, Note: "inbound backlog beyond twice the queue capacity"},
-				{Pkg: "client", Func: "VerifC07Teardown", Sched: true, Quick: map[string]int{"INB": 0, "OUTB": 70, "SW": 0}, Thorough: map[string]int{"INB": 40, "OUTB": 140, "SW": 0}, Asserts: []string{"DISCONNECTED-delivered-once"}, Note: "a handler emitting more lines than twice the queue capacity to a stalled peer"},
-				{Pkg: "client", Func: "VerifC07Teardown", Sched: true, Quick: map[string]int{"INB": 0, "OUTB": 40, "PRODUCER": 1, "SW": 0}, Thorough: map[string]int{"INB": 8, "OUTB": 80, "PRODUCER": 1, "SW": 1}, Asserts: []string{"DISCONNECTED-delivered-once"}, Note: "a user goroutine flooding a stalled peer"},
+				{Pkg: "client", Func: "VerifC07Teardown", Sched: true, Solver: "z3-lia", Quick: map[string]int{"INB": 3, "OUTB": 0, "SW": 1}, Thorough: map[string]int{"INB": 4, "OUTB": 2, "SW": 2}, Asserts: []string{"DISCONNECTED-delivered-once", "Close-returned", "monitor:no-goroutine-left-behind"}, Note: "small backlogs, delay-bounded schedules"},
+				{Pkg: "client", Func: "VerifC07Teardown", Sched: true, Quick: map[string]int{"INB": 70, "OUTB": 0, "SW": 1}, Thorough: map[string]int{"INB": 100, "OUTB": 0, "SW": 1}, Asserts: []string{"DISCONNECTED-delivered-once"}, Note: "inbound backlog beyond twice the queue capacity"},
+				{Pkg: "client", Func: "VerifC07Teardown", Sched: true, Quick: map[string]int{"INB": 0, "OUTB": 70, "SW": 0}, Thorough: map[string]int{"INB": 10, "OUTB": 100, "SW": 0}, Asserts: []string{"DISCONNECTED-delivered-once"}, Note: "a handler emitting more lines than twice the queue capacity to a stalled peer"},
+				{Pkg: "client", Func: "VerifC07Teardown", Sched: true, Quick: map[string]int{"INB": 0, "OUTB": 40, "PRODUCER": 1, "SW": 0}, Thorough: map[string]int{"INB": 4, "OUTB": 60, "PRODUCER": 1, "SW": 1}, Asserts: []string{"DISCONNECTED-delivered-once"}, Note: "a user goroutine flooding a stalled peer"},
 				{Pkg: "client", Func: "VerifC07Reconnect", Sched: true, Quick: map[string]int{"CYCLES": 2, "SW": 1, "KINDS": 1}, Thorough: map[string]int{"CYCLES": 2, "SW": 2, "KINDS": 1}, Asserts: []string{"old-teardown-disconnects-new-connection", "new-connection-stays-up", "new-socket-not-closed-by-old-teardown", "registration-reaches-the-new-socket", "REGISTER-once-per-connection", "DISCONNECTED-once-per-ended-connection"}},
 				{Pkg: "client", Func: "VerifC07Wipe", Asserts: []string{"tracker-reset-on-connect", "tracker-is-just-the-client"}},
 			},
@@ -223,7 +223,7 @@ func allChecks() []*Check {
 				"thorough": "same with 5 lines"},
 			Outside:     []string{"runs of more than 4 (quick) / 5 (thorough) lines for the window bound (the per-step rule is checked from arbitrary states, i.e. for histories of any length)", "real sleeping and the OS clock (replaced by the model clock)", "a scheduling delay of more than 2 s between a line's accounting/hold and its socket write (environment contract)", "queued burst: a stall of more than 2 s between two consecutive clock readings beyond the holds requested in between (environment contract)"},
 			Stubs:       []string{"time.Now = fresh non-decreasing solver variable per call", "time.After(d) = records d, advances the model clock by >= d", "bufio model over in-memory conn"},
-			Assumptions: []string{"window bound: each line reaches the socket within 2 s (the minimum charge) of the end of its accounting or hold; without this the solver finds a 6.25 s stall between rateLimit returning and WriteString that the real code cannot exhibit"},
+			Assumptions: []string{"the window bound is checked as: total charge of a run <= time between its first and last socket write + 10 s + the two largest charges in the run", "window bound: each line reaches the socket within 2 s (the minimum charge) of the end of its accounting or hold; without this the solver finds a 6.25 s stall between rateLimit returning and WriteString that the real code cannot exhibit"},
 			QuickBudget: 5 * time.Minute, ThorBudget: 40 * time.Minute,
 		},
 		{
@@ -285,12 +285,12 @@ func allChecks() []*Check {
 				{Pkg: "client", Func: "VerifC02Parse", Quick: map[string]int{"L": 6}, Thorough: map[string]int{"L": 9}},
 				{Pkg: "client", Func: "VerifC02Prefixed", Quick: map[string]int{"L": 4}, Thorough: map[string]int{"L": 7}},
 				{Pkg: "client", Func: "VerifC02Handlers", Quick: map[string]int{"L": 4}, Thorough: map[string]int{"L": 6}, Asserts: []string{"later-PING-still-answered", "later-line-still-dispatched", "capability-state-still-works"}},
-				{Pkg: "client", Func: "VerifC02HandlerShapes", Quick: map[string]int{"L": 2}, Thorough: map[string]int{"L": 4}, Asserts: []string{"later-PING-still-answered", "later-line-still-dispatched", "capability-state-still-works"}},
-				{Pkg: "client", Func: "VerifC02Recv", Quick: map[string]int{"L": 4}, Thorough: map[string]int{"L": 7}, Asserts: []string{"later-line-processed"}},
+				{Pkg: "client", Func: "VerifC02HandlerShapes", Quick: map[string]int{"L": 2}, Thorough: map[string]int{"L": 3}, Asserts: []string{"later-PING-still-answered", "later-line-still-dispatched", "capability-state-still-works"}},
+				{Pkg: "client", Func: "VerifC02Recv", Quick: map[string]int{"L": 4}, Thorough: map[string]int{"L": 6}, Asserts: []string{"later-line-processed"}},
 				{Pkg: "client", Func: "VerifC02Recv", Quick: map[string]int{"L": 1, "LONG": 4092, "LONGSPAN": 6}, Thorough: map[string]int{"L": 2, "LONG": 4080, "LONGSPAN": 30}, Asserts: []string{"later-line-processed"}, Note: "lines around and beyond the reader's 4096-byte buffer"},
 				{Pkg: "client", Func: "VerifC02HandlerShapes", Quick: map[string]int{"L": 0, "RUN": 600}, Thorough: map[string]int{"L": 1, "RUN": 600}, Asserts: []string{"later-PING-still-answered", "later-line-still-dispatched"}, Note: "600 copies of one arbitrary byte value after each beginning"},
 			},
-			Bounds:      map[string]string{"quick": "ParseLine + Text/Target/Public on every ASCII byte string of length <= 6, and <= 4 bytes after 6 structural prefixes; every built-in handler's verb with 0..4 arbitrary ASCII bytes as the rest of the line, and 0..2 bytes after each of 37 well-formed beginnings (incl. complete CTCP messages with the closing \\001), tracking on/off, each followed by a well-formed line for every built-in verb and by CAP / PING / PRIVMSG (a deadlock or an unterminated loop is a violation); the same beginnings followed by 600 copies of ONE arbitrary byte value (all 256 but CR, LF and the UTF-8 lead bytes C2/E1/E2/E3); the real recv loop on 0..4 arbitrary ASCII bytes cut into two reads anywhere, and on lines of 4092..4098 bytes (reads split around the 4096-byte buffer), each followed by a well-formed line", "thorough": "lengths 9 / 7 / 6 / 4; recv junk 7 bytes; long lines 4080..4110"},
+			Bounds:      map[string]string{"quick": "ParseLine + Text/Target/Public on every ASCII byte string of length <= 6, and <= 4 bytes after 6 structural prefixes; every built-in handler's verb with 0..4 arbitrary ASCII bytes as the rest of the line, and 0..2 bytes after each of 37 well-formed beginnings (incl. complete CTCP messages with the closing \\001), tracking on/off, each followed by a well-formed line for every built-in verb and by CAP / PING / PRIVMSG (a deadlock or an unterminated loop is a violation); the same beginnings followed by 600 copies of ONE arbitrary byte value (all 256 but CR, LF and the UTF-8 lead bytes C2/E1/E2/E3); the real recv loop on 0..4 arbitrary ASCII bytes cut into two reads anywhere, and on lines of 4092..4098 bytes (reads split around the 4096-byte buffer), each followed by a well-formed line", "thorough": "lengths 9 / 7 / 6 / 3; recv junk 6 bytes; long lines 4080..4110"},
 			Outside:     []string{"non-ASCII bytes other than as a run of one value; C2/E1/E2/E3 (lead bytes of multi-byte Unicode spaces, refused by the white-space models)", "line lengths between the short bound and the 600 / 4096 windows"},
 			Stubs:       []string{"strings.* models (Fields/TrimSpace treat every byte >= 0x80 as non-space, exact in the absence of C2/E1/E2/E3; case mapping ASCII only)", "bufio.Reader ReadString/ReadLine/ReadSlice/ReadBytes models", "bytes and strings functions without a model are executed from their own SSA", "logging via real nullLogger", "a loop of the code under test that exceeds the unwinding bound is reported only if the native run of the same input does not terminate within 30 s"},
 			QuickBudget: 4 * time.Minute, ThorBudget: 30 * time.Minute,
